@@ -59,6 +59,10 @@ impl Expr {
     #[verifier::external_body]
     pub fn span(&self) -> Span { unimplemented!() }
 }
+impl Span {
+    #[verifier::external_body]
+    pub fn call_site() -> Span { unimplemented!() }
+}
 // compare_op.rs `struct Template(TokenStream)`: its methods go through replace_tokens (TokenTree iteration,
 // out of the verifier's reach); their dataflow is assumed: the result mentions the template and its arguments.
 #[verifier::external_body]
